@@ -59,3 +59,14 @@ func VerifCkptSMStore(sm StateMachine) *KVStore {
 	}
 	return nil
 }
+
+// VerifSyncSwitchIgnoreSend sets the switch of a log syncer state machine that the node flips when
+// its learner replica gains or loses the learner leadership (KVNode.switchForLearnerLeader):
+// ignore = true: entries are not sent, ApplyRaftRequest waits until the destination has them.
+func VerifSyncSwitchIgnoreSend(sm StateMachine, ignore bool) bool {
+	l, ok := sm.(*logSyncerSM)
+	if ok {
+		l.switchIgnoreSend(!ignore)
+	}
+	return ok
+}
